@@ -5,8 +5,22 @@ PROPS = {}
 
 
 def setup_all(build_harness):
-    ok = build_harness(["dev", "release"])
-    return 0 if ok else 2
+    """Build every harness package on its own (`cargo build -p <pkg>`): building the whole workspace
+    in one invocation would unify cargo features across packages (galloc turns on tiny-std's
+    `global-allocator`, which must not leak into the other binaries)."""
+    done = set()
+    for pid in sorted(PROPS):
+        cfg = PROPS[pid]
+        pre = cfg.get("pre")
+        if pre and pre("quick") != 0:
+            return 2
+        pkg = cfg.get("package", "vh")
+        if pkg in done:
+            continue
+        done.add(pkg)
+        if not build_harness(cfg.get("profiles", ["dev", "release"]), pkg):
+            return 2
+    return 0
 
 
 PROPS["C10"] = {
